@@ -78,13 +78,16 @@ func isClosedChan(c <-chan struct{}) bool {
 // ---- one direction
 
 type queue struct {
-	mu     sync.Mutex
-	buf    []byte
-	eof    bool          // writer side closed: reader gets EOF after draining
-	notify chan struct{} // closed and replaced on every change
+	mu       sync.Mutex
+	buf      []byte
+	eof      bool          // writer side closed: reader gets EOF after draining
+	notify   chan struct{} // closed and replaced on every change
+	consumed chan struct{} // closed and replaced whenever the reader took bytes
 }
 
-func newQueue() *queue { return &queue{notify: make(chan struct{})} }
+func newQueue() *queue {
+	return &queue{notify: make(chan struct{}), consumed: make(chan struct{})}
+}
 
 func (q *queue) put(p []byte) {
 	q.mu.Lock()
@@ -151,8 +154,9 @@ type Conn struct {
 
 	local, remote Addr
 
-	closeOnce sync.Once
-	closed    chan struct{}
+	closeOnce  sync.Once
+	closed     chan struct{}
+	peerClosed <-chan struct{} // the other end's closed channel (Pipe only)
 
 	mu         sync.Mutex
 	script     Script
@@ -168,9 +172,12 @@ type Conn struct {
 	delivered  int
 	chunk      func(avail int) int
 	afterWrite func(n int)
+	writeHook  func(p []byte)
+	syncWrites bool
 
 	blockedNoDeadline atomic.Int32
 	blockedReads      atomic.Int32
+	blockedWrites     atomic.Int32
 }
 
 func newConn(in, out *queue, l, r Addr) *Conn {
@@ -181,7 +188,9 @@ func newConn(in, out *queue, l, r Addr) *Conn {
 // Pipe returns two connected ends.
 func Pipe() (*Conn, *Conn) {
 	ab, ba := newQueue(), newQueue()
-	return newConn(ba, ab, "a", "b"), newConn(ab, ba, "b", "a")
+	a, b := newConn(ba, ab, "a", "b"), newConn(ab, ba, "b", "a")
+	a.peerClosed, b.peerClosed = b.closed, a.closed
+	return a, b
 }
 
 // NewScripted returns the library's end of a connection whose peer is s.
@@ -212,6 +221,29 @@ func (c *Conn) SetAfterWrite(f func(n int)) {
 	c.afterWrite = f
 	c.mu.Unlock()
 }
+
+// SetWriteHook installs a callback that runs on the writing goroutine after
+// every successful Write, with the bytes written.  A workload uses it to hold
+// a sender right after its request reached the wire (a fast peer: the reply
+// is processed before the sender gets to run again).
+func (c *Conn) SetWriteHook(f func(p []byte)) {
+	c.mu.Lock()
+	c.writeHook = f
+	c.mu.Unlock()
+}
+
+// SetSyncWrites makes Write block, like net.Pipe, until the peer has read
+// everything that was written (or the connection is closed or the write
+// deadline passes).
+func (c *Conn) SetSyncWrites(on bool) {
+	c.mu.Lock()
+	c.syncWrites = on
+	c.mu.Unlock()
+}
+
+// BlockedWrites reports how many Write calls are waiting for the peer to read
+// (synchronous-write mode only).
+func (c *Conn) BlockedWrites() int { return int(c.blockedWrites.Load()) }
 
 // Written returns a copy of everything accepted by Write so far.
 func (c *Conn) Written() []byte {
@@ -348,6 +380,8 @@ func (c *Conn) Read(p []byte) (int, error) {
 			}
 			copy(p, c.in.buf[:n])
 			c.in.buf = c.in.buf[n:]
+			close(c.in.consumed)
+			c.in.consumed = make(chan struct{})
 			c.in.mu.Unlock()
 			c.delivered += n
 			c.recIn = append(c.recIn, p[:n]...)
@@ -473,10 +507,39 @@ func (c *Conn) Write(p []byte) (int, error) {
 		c.pending = append(c.pending, p[:n]...)
 	}
 	aw := c.afterWrite
+	wh := c.writeHook
+	syncW := c.syncWrites
 	c.mu.Unlock()
 	c.out.put(p[:n])
+	if syncW && err == nil {
+		c.blockedWrites.Add(1)
+		for {
+			c.out.mu.Lock()
+			empty := len(c.out.buf) == 0
+			ch := c.out.consumed
+			c.out.mu.Unlock()
+			if empty {
+				break
+			}
+			select {
+			case <-ch:
+				continue
+			case <-c.closed:
+				err = io.ErrClosedPipe
+			case <-c.peerClosed:
+				err = io.ErrClosedPipe
+			case <-c.wd.wait():
+				err = &net.OpError{Op: "write", Net: "bufconn", Err: timeoutError{}}
+			}
+			break
+		}
+		c.blockedWrites.Add(-1)
+	}
 	if aw != nil && err == nil {
 		aw(n)
+	}
+	if wh != nil && err == nil {
+		wh(p[:n])
 	}
 	return n, err
 }
